@@ -161,11 +161,16 @@ func lockFactsOf(l *loaded, fileFilter func(string) bool, fset *token.FileSet) [
 			name := l.Pkg.Name() + "." + recvName(fd) + fd.Name.Name
 			paired := map[ast.Stmt]bool{}
 			locked := map[string]bool{}
-			unlocks := map[string]bool{} // mutexes this function releases somewhere
+			unlocks := map[string]bool{}  // mutexes this function releases somewhere
+			deferred := map[string]bool{} // mutexes this function releases by defer
+			windowLock := map[ast.Stmt]bool{}
 			ast.Inspect(fd.Body, func(m ast.Node) bool {
 				if s, ok := m.(ast.Stmt); ok {
-					if x, op, _ := lockCall(l.Info, s); op == "unlock" {
+					if x, op, d := lockCall(l.Info, s); op == "unlock" {
 						unlocks[x] = true
+						if d {
+							deferred[x] = true
+						}
 					}
 				}
 				return true
@@ -173,6 +178,24 @@ func lockFactsOf(l *loaded, fileFilter func(string) bool, fset *token.FileSet) [
 			var blocks func(list []ast.Stmt)
 			blocks = func(list []ast.Stmt) {
 				for i, st := range list {
+					// a wait window inside a region whose release is deferred (condition-variable
+					// style): X.Unlock(); <wait>; X.Lock() in one block with no return in between
+					if windowLock[st] {
+						out = append(out, lockFact{Fn: name, Kind: "window", Line: fset.Position(st.Pos()).Line})
+						continue
+					}
+					if x, op, d := lockCall(l.Info, st); op == "unlock" && !d && deferred[x] {
+						for j := i + 1; j < len(list); j++ {
+							if y, op2, d2 := lockCall(l.Info, list[j]); y == x && op2 == "lock" && !d2 {
+								paired[st] = true
+								windowLock[list[j]] = true
+								break
+							}
+							if containsReturn(list[j]) {
+								break
+							}
+						}
+					}
 					if x, op, d := lockCall(l.Info, st); op == "lock" && !d {
 						locked[x] = true
 						line := fset.Position(st.Pos()).Line
@@ -295,6 +318,28 @@ func leanLockFacts(facts []lockFact, err error) string {
 		return b.String()
 	}
 	b.WriteString("def lockFacts : Option (List (String × String × Nat)) := some [\n")
+	for i, f := range facts {
+		if i > 0 {
+			b.WriteString(",\n")
+		}
+		fmt.Fprintf(&b, "  (%q, %q, %d)", f.Fn, f.Kind, f.N)
+	}
+	b.WriteString("]\n")
+	return b.String()
+}
+
+// leanHandlerLockFacts: every Lock() / unmatched Unlock() of the handler packages, classified as
+// above.  The function name is printed for the reader only (second component is what the
+// theorem looks at): a Lock that some path leaves without releasing wedges the next stanza
+// that needs the mutex.
+func leanHandlerLockFacts(facts []lockFact, ok bool) string {
+	var b strings.Builder
+	b.WriteString("/-- lock discipline of the handler packages: (function, classification, n) per Lock / unmatched Unlock -/\n")
+	if !ok {
+		b.WriteString("def handlerLockFacts : Option (List (String × String × Nat)) := none\n")
+		return b.String()
+	}
+	b.WriteString("def handlerLockFacts : Option (List (String × String × Nat)) := some [\n")
 	for i, f := range facts {
 		if i > 0 {
 			b.WriteString(",\n")
